@@ -3,6 +3,7 @@ package ssaexec
 import (
 	"go/token"
 	"go/types"
+	"time"
 
 	"golang.org/x/tools/go/ssa"
 )
@@ -114,6 +115,28 @@ func registerSyncTimeModels(e *Engine) {
 	}
 	e.models["(time.Time).Format"] = func(fr *frame, fn *ssa.Function, args []value) value {
 		return opaqueMark + "time"
+	}
+	// JSON form of the engine's time values (whole seconds, UTC)
+	e.models["(time.Time).MarshalJSON"] = func(fr *frame, fn *ssa.Function, args []value) value {
+		t := args[0].(structure)
+		sec := fr.concreteInt(t[1])
+		b, err := time.Unix(sec-unixToInternal, 0).UTC().MarshalJSON()
+		if err != nil {
+			return tuple{[]value(nil), fr.p.eng.newErrorString(err.Error())}
+		}
+		return tuple{bytesVal(b), iface{}}
+	}
+	e.models["(*time.Time).UnmarshalJSON"] = func(fr *frame, fn *ssa.Function, args []value) value {
+		b, ok := bytesOf(fr, args[1])
+		if !ok {
+			fr.unmodelled("time.UnmarshalJSON of symbolic text")
+		}
+		var t time.Time
+		if err := t.UnmarshalJSON(b); err != nil {
+			return fr.p.eng.newErrorString(err.Error())
+		}
+		*fr.derefPtr(args[0]) = structure{uint64(0), t.Unix() + unixToInternal, (*value)(nil)}
+		return iface{}
 	}
 	e.models["(time.Time).String"] = func(fr *frame, fn *ssa.Function, args []value) value {
 		return opaqueMark + "time"
